@@ -69,6 +69,8 @@ QUICK_VARIANTS = [
     ("aff-fxpunk-nochk", _cfg(64, False, proj=False, fxp="COMB_1T", fw=4, unk="SLIDING_WIN", uw=4,
                               twin="FXP_UNKPT", chk=False), "gcc", False),
     ("d32-proj-bin", _cfg(32, True, proj=True, fxp="SLIDING_WIN", fw=4, unk="BIN", uw=2, twin="BIN"), "gcc", True),
+    # Jacobian + mixed addition + joint-sparse-form twin multiplication (its table holds G+Q and G-Q: O for Q = -G / Q = G)
+    ("proj-mix-joint", _cfg(64, True, True, True, True, "COMB_2T", 8, "COMB_1T", 2, "JOINT"), "gcc", True),
     # binary fixed-point multiplication reports O by flag only (stale coordinates): zero nonce / zero key reach the callers
     ("d64-nomd-bin", _cfg(64, False, True, False, False, "BIN", 2, "BIN", 2, "BIN"), "gcc", True),
 ]
@@ -288,6 +290,9 @@ def gen_tuples(c, order, rng, tier):
         (rd(), b"\xff" * (2 * nb), top, "hlen2max,kmax"),
         (rd(), rh(nb), 0, "k0"),
         (rd(), (b"\x80" + b"\x00" * nb) if order == "big" else (b"\x00" * nb + b"\x80"), rk(), "hlen+1-topbit"),
+        # public key exactly G / -G with an ordinary hash and nonce (G+Q or G-Q is then the neutral element)
+        (1, rh(nb), rk(), "d1,hrand"),
+        (dmax, rh(nb), rk(), "dn-1,hrand"),
     ]
     for i in range(5 if tier == "thorough" else 0):
         T.append((rd(), rh(rng.range(1, 2 * nb + 1)), rk(), "rand%d" % i))
